@@ -37,6 +37,8 @@ var (
 	ModuleAddress = authtypes.NewModuleAddress(ModuleName)
 
 	DustCollectorName = fmt.Sprintf("%s/%s", ModuleName, "dust_collector")
+	// DustCollectorAddress is the address of the dust collector account.
+	DustCollectorAddress = authtypes.NewModuleAddress(DustCollectorName)
 )
 
 // ====================================================================================================
